@@ -57,18 +57,22 @@ CompdatRange(w, cs, k1, k2, state, rec) ==
 Scale(cs, s, f) == [n \in 1..Len(cs) |-> IF Matches(cs[n], s) THEN [cs[n] EXCEPT !.mult = @ * f] ELSE cs[n]]
 SetState(cs, s, state) == [n \in 1..Len(cs) |-> IF Matches(cs[n], s) THEN [cs[n] EXCEPT !.state = state] ELSE cs[n]]
 
-\* an operation is a record [op, well, ...]; st = [conns : well -> seq, pending : well -> factor or 0]
+InLayers(c, k1, k2) == (k1 = 0 \/ c.k >= k1) /\ (k2 = 0 \/ c.k <= k2)
+Lump(cs, k1, k2, n) == [i \in 1..Len(cs) |-> IF InLayers(cs[i], k1, k2) THEN [cs[i] EXCEPT !.complnum = n] ELSE cs[i]]
+\* an operation is a record [op, well, ...]; st = [conns : well -> seq, pending : well -> factor or 0, lumped : well -> BOOLEAN]
 ApplyOp(st, o) ==
     CASE o.op = "COMPDAT" -> [st EXCEPT !.conns[o.well] = CompdatRange(o.well, @, o.k1, o.k2, o.state, o.rec)]
       [] o.op = "WPIMULT" -> IF AllDefault(o.sel) THEN [st EXCEPT !.pending[o.well] = o.f]
                              ELSE [st EXCEPT !.conns[o.well] = Scale(@, o.sel, o.f)]
       [] o.op = "WELOPEN" -> [st EXCEPT !.conns[o.well] = SetState(@, o.sel, o.state)]
+      \* COMPLUMP gives the connections of a layer range the same completion number
+      [] o.op = "COMPLUMP" -> [st EXCEPT !.conns[o.well] = Lump(@, o.k1, o.k2, o.n), !.lumped[o.well] = TRUE]
 EndStep(st) == [conns |-> [w \in Wells |-> IF st.pending[w] = 0 THEN st.conns[w]
                                            ELSE Scale(st.conns[w], [k |-> 0, c1 |-> 0, c2 |-> 0, ij |-> "default"], st.pending[w])],
-                pending |-> [w \in Wells |-> 0]]
+                pending |-> [w \in Wells |-> 0], lumped |-> st.lumped]
 RECURSIVE ApplyOps(_, _)
 ApplyOps(st, ops) == IF ops = <<>> THEN st ELSE ApplyOps(ApplyOp(st, Head(ops)), Tail(ops))
-Empty == [conns |-> [w \in Wells |-> <<>>], pending |-> [w \in Wells |-> 0]]
+Empty == [conns |-> [w \in Wells |-> <<>>], pending |-> [w \in Wells |-> 0], lumped |-> [w \in Wells |-> FALSE]]
 
 (***************************************************************************)
 (* The state machine: operations arrive one at a time within a report step *)
@@ -84,6 +88,8 @@ Compdat(w, k1, k2, s) == /\ k1 <= k2 /\ nrec' = nrec + 1
 SelFits(w, s) == IF w \in FreeOrder THEN s.k \in {0} \cup FreeCells ELSE s.k \in 0..NK
 Wpimult(w, sel, f) == SelFits(w, sel) /\ Do([op |-> "WPIMULT", well |-> w, sel |-> sel, f |-> f]) /\ UNCHANGED nrec
 Welopen(w, sel, s) == SelFits(w, sel) /\ ~AllDefault(sel) /\ Do([op |-> "WELOPEN", well |-> w, sel |-> sel, state |-> s]) /\ UNCHANGED nrec
+Complump(w, k1, k2, n) == /\ w \notin FreeOrder /\ (k1 = 0 \/ k2 = 0 \/ k1 <= k2)
+                          /\ Do([op |-> "COMPLUMP", well |-> w, k1 |-> k1, k2 |-> k2, n |-> n]) /\ UNCHANGED nrec
 NextStep == step < MaxSteps /\ st' = EndStep(st) /\ step' = step + 1 /\ last' = [op |-> "end"] /\ UNCHANGED <<nops, nrec>>
 SmallSel == {s \in Sel : (s.c1 = 0 \/ s.c2 = 0 \/ s.c1 <= s.c2)}
 Next == \/ NextStep
@@ -91,7 +97,8 @@ Next == \/ NextStep
            ( \/ \E w \in Wells \ FreeOrder, k1, k2 \in 1..NK, s \in States : Compdat(w, k1, k2, s)
              \/ \E w \in FreeOrder, c \in FreeCells, s \in States : Compdat(w, c, c, s)
              \/ \E w \in Wells, sel \in SmallSel, f \in {2, 3} : Wpimult(w, sel, f)
-             \/ \E w \in Wells, sel \in SmallSel, s \in States : Welopen(w, sel, s) )
+             \/ \E w \in Wells, sel \in SmallSel, s \in States : Welopen(w, sel, s)
+             \/ \E w \in Wells, k1, k2 \in 0..NK, n \in 1..2 : Complump(w, k1, k2, n) )
 Spec == Init /\ [][Next]_vars
 
 (***************************************************************************)
@@ -100,21 +107,22 @@ Spec == Init /\ [][Next]_vars
 Range(f) == {f[x] : x \in DOMAIN f}
 \* completion numbers and sort values are 1..n and 0..n-1, one per connection, cells distinct
 Numbering == \A w \in Wells : LET cs == st.conns[w] IN
-                /\ {c.complnum : c \in Range(cs)} = 1..Len(cs)
+                /\ (~st.lumped[w] => {c.complnum : c \in Range(cs)} = 1..Len(cs))
                 /\ {c.sort : c \in Range(cs)} = 0..(Len(cs) - 1)
-                /\ \A c \in Range(cs) : c.sort = c.complnum - 1
+                /\ (~st.lumped[w] => \A c \in Range(cs) : c.sort = c.complnum - 1)
                 /\ Cardinality({c.k : c \in Range(cs)}) = Len(cs)
 Ordered == \A w \in Wells \ FreeOrder : LET cs == st.conns[w] IN
-              IF w \in InputOrder THEN \A n \in 1..Len(cs) : cs[n].complnum = n
+              IF w \in InputOrder THEN \A n \in 1..Len(cs) : cs[n].sort = n - 1
               ELSE \A n \in 1..(Len(cs) - 1) : cs[n].k < cs[n + 1].k
 \* an operation changes only the connections it addresses: the others keep every field, and their relative order
 Targeted(o, c) == CASE o.op = "COMPDAT" -> c.k \in o.k1..o.k2
                     [] o.op = "WPIMULT" -> Matches(c, o.sel)
                     [] o.op = "WELOPEN" -> Matches(c, o.sel)
+                    [] o.op = "COMPLUMP" -> InLayers(c, o.k1, o.k2)
                     [] OTHER -> FALSE
 Sub(cs, P(_)) == SelectSeq(cs, P)
 OnlyTargeted ==
-    [][ last'.op \in {"COMPDAT", "WPIMULT", "WELOPEN"} =>
+    [][ last'.op \in {"COMPDAT", "WPIMULT", "WELOPEN", "COMPLUMP"} =>
           \A w \in Wells :
              IF w # last'.well THEN st'.conns[w] = st.conns[w]
              ELSE LET keep(c) == ~Targeted(last', c)
